@@ -210,3 +210,128 @@ Proof.
   - apply C07_completes; [intros _; exact T | exact H | vm_compute; auto 20].
   - vm_compute. reflexivity.
 Qed.
+
+(* ==== the same client on BYTES cut arbitrarily into reads ======================
+   Model/Framing.v is the model of dataReceived on reads (C04), with the
+   authenticator as a parameter.  [astep_client] makes the ClientAuthenticator
+   model that parameter; [reads_run unix chunks] = Framing.run at that instance,
+   client side, line limit MAX_AUTH_LENGTH: the callbacks (Line l, AuthOk, Msg raw,
+   Close, Crash) and the unframed leftover for the reads [chunks];
+   [reads_outs unix chunks] everything the client writes and does from connecting
+   on; [stream_lines s] the lines of a byte stream (every CRLF-terminated line,
+   and an unterminated remainder already longer than the limit plus one);
+   [session_outs unix lines] the outputs of the line-level session of the
+   statements above.  (Proofs/AuthClientFramingBridge.v, on top of C04's
+   partition_independent, any_two_partitions and handshake_boundary.) *)
+From Tx Require Model.Framing Spec.FramingSpec Proofs.FramingProofs.
+From Tx Require Import Model.AuthClientReads Proofs.AuthClientFramingBridge.
+
+(* However the server's byte stream is cut into reads, the client writes, closes
+   and authenticates exactly as the line-level session on the stream's lines. *)
+Theorem C07_reads_are_lines :
+  forall user lookup nonce sha1hex unix (chunks : list bytes),
+    reads_outs user lookup nonce sha1hex unix chunks =
+    session_outs user lookup nonce sha1hex unix (stream_lines (concat chunks)).
+Proof. exact reads_bridge. Qed.
+
+(* Two cuttings of the same stream: the same lines reach the authenticator, the
+   same messages are framed, the same bytes are left over, and the client writes
+   the same bytes, closes or authenticates identically. *)
+Theorem C07_cut_independent :
+  forall user lookup nonce sha1hex unix (chunks1 chunks2 : list bytes),
+    concat chunks1 = concat chunks2 ->
+    reads_run user lookup nonce sha1hex unix chunks1 = reads_run user lookup nonce sha1hex unix chunks2 /\
+    reads_outs user lookup nonce sha1hex unix chunks1 = reads_outs user lookup nonce sha1hex unix chunks2.
+Proof. exact cut_independent. Qed.
+
+(* The server's lines (none containing CRLF or over-long), the last of which
+   completes the handshake in the line-level session, then ARBITRARY bytes [rest]
+   - sharing the read with that line or not, containing CRLF or not, cut
+   anywhere: each line reaches the authenticator, connectionAuthenticated runs,
+   and [rest] is framed as binary messages exactly as it would be alone. *)
+Theorem C07_handshake_tail_is_binary :
+  forall user lookup nonce sha1hex unix (lines : list bytes) (rest : bytes) (chunks : list bytes),
+    Forall (FramingSpec.good_line max_auth_length) lines ->
+    auth_at_last (snd (session user lookup nonce sha1hex unix lines)) = true ->
+    concat chunks = FramingSpec.hs_bytes true lines ++ rest ->
+    reads_run user lookup nonce sha1hex unix chunks =
+      (map Framing.Line lines ++ Framing.AuthOk :: fst (FramingSpec.frames_of rest),
+       snd (FramingSpec.frames_of rest)).
+Proof. exact handshake_tail_is_binary. Qed.
+
+(* C07_begin_only_after_ok for arbitrary reads. *)
+Theorem C07_begin_only_after_ok_reads :
+  forall user lookup nonce sha1hex unix (chunks : list bytes),
+    In (Send w_BEGIN) (reads_outs user lookup nonce sha1hex unix chunks) ->
+    exists a l b, stream_lines (concat chunks) = a ++ l :: b /\ ok_line l = true /\
+      (unix = true -> exists l', In l' b /\ fd_answer_line l' = true).
+Proof. exact begin_only_after_ok_reads. Qed.
+
+(* C07_offers_in_order_once for arbitrary reads. *)
+Theorem C07_offers_in_order_once_reads :
+  forall user lookup nonce sha1hex unix (chunks : list bytes),
+    (exists rest, preference = offers (map ev_of (reads_outs user lookup nonce sha1hex unix chunks)) ++ rest) /\
+    NoDup (offers (map ev_of (reads_outs user lookup nonce sha1hex unix chunks))).
+Proof. exact offers_in_order_once_reads. Qed.
+
+(* C07_never_loops for arbitrary reads: at most one line more is written than the
+   stream has lines; closing or switching to binary is the last thing the client
+   does; and the line-level session that the reads amount to (C07_reads_are_lines)
+   satisfies every clause of the judgement (answers every line while open, closes
+   on what is outside the protocol, moves on after REJECTED / ERROR). *)
+Theorem C07_never_loops_reads :
+  forall user lookup nonce sha1hex unix (chunks : list bytes),
+    (length (sent_lines (map ev_of (reads_outs user lookup nonce sha1hex unix chunks)))
+       <= length (stream_lines (concat chunks)) + 1)%nat /\
+    (forall pre x post, reads_outs user lookup nonce sha1hex unix chunks = pre ++ x :: post ->
+       dead_out x = true -> post = []) /\
+    session_verdict preference unix
+      (fst (session_observed user lookup nonce sha1hex unix (stream_lines (concat chunks))))
+      (snd (session_observed user lookup nonce sha1hex unix (stream_lines (concat chunks)))) = 0.
+Proof. exact never_loops_reads. Qed.
+
+(* ---- non-vacuity ---------------------------------------------------------------- *)
+Definition ex_crlf (l : bytes) : bytes := l ++ [13; 10].
+Definition ex_hs_stream : bytes := ex_crlf w_DATA ++ ex_crlf ex_ok ++ ex_crlf w_AGREE_UNIX_FD.
+
+(* a full EXTERNAL handshake on a UNIX transport, delivered ONE BYTE PER READ (38
+   reads), and the same in one read *)
+Example C07_handshake_byte_by_byte :
+  let bytewise := map (fun b => [b]) ex_hs_stream in
+  length bytewise = 38%nat /\
+  reads_outs no_user (fun _ _ => LRaised) no_nonce no_sha true bytewise =
+    [Raw [0]; Send (s_AUTH_ ++ s_EXTERNAL); Send s_DATA; Send s_NEGOTIATE_UNIX_FD; Send s_BEGIN;
+     Authd (Some [18; 52; 222; 173; 190; 239])] /\
+  reads_run no_user (fun _ _ => LRaised) no_nonce no_sha true bytewise =
+    ([Framing.Line w_DATA; Framing.Line ex_ok; Framing.Line w_AGREE_UNIX_FD; Framing.AuthOk], Some []) /\
+  reads_run no_user (fun _ _ => LRaised) no_nonce no_sha true [ex_hs_stream] =
+    reads_run no_user (fun _ _ => LRaised) no_nonce no_sha true bytewise /\
+  stream_lines ex_hs_stream = [w_DATA; ex_ok; w_AGREE_UNIX_FD].
+Proof. vm_compute. repeat split; reflexivity. Qed.
+
+(* a well-framed little-endian message of 40 bytes whose header fields contain CRLF *)
+Definition ex_msg40 : bytes :=
+  [108; 2; 0; 1; 8; 0; 0; 0; 1; 0; 0; 0; 16; 0; 0; 0] ++
+  [5; 1; 117; 0; 13; 10; 0; 0; 8; 1; 103; 0; 1; 120; 0; 0] ++ [13; 10; 13; 10; 0; 0; 0; 0].
+
+(* OK <guid> CRLF AGREE_UNIX_FD CRLF and the 40 message bytes in ONE read: the
+   hypotheses of C07_handshake_tail_is_binary hold, the message is delivered
+   byte-identical by the binary framing, nothing is left over; and the client
+   wrote NEGOTIATE_UNIX_FD, BEGIN *)
+Example C07_handshake_and_message_in_one_read :
+  let lines := [ex_ok; w_AGREE_UNIX_FD] in
+  let read := FramingSpec.hs_bytes true lines ++ ex_msg40 in
+  length ex_msg40 = 40%nat /\
+  Forall (FramingSpec.good_line max_auth_length) lines /\
+  auth_at_last (snd (session no_user (fun _ _ => LRaised) no_nonce no_sha true lines)) = true /\
+  FramingSpec.frames_of ex_msg40 = ([Framing.Msg ex_msg40], Some []) /\
+  reads_run no_user (fun _ _ => LRaised) no_nonce no_sha true [read] =
+    ([Framing.Line ex_ok; Framing.Line w_AGREE_UNIX_FD; Framing.AuthOk; Framing.Msg ex_msg40], Some []) /\
+  reads_outs no_user (fun _ _ => LRaised) no_nonce no_sha true [read] =
+    [Raw [0]; Send (s_AUTH_ ++ s_EXTERNAL); Send s_NEGOTIATE_UNIX_FD; Send s_BEGIN;
+     Authd (Some [18; 52; 222; 173; 190; 239])].
+Proof.
+  cbv zeta. split; [reflexivity|]. split.
+  { repeat constructor; vm_compute; congruence. }
+  vm_compute. repeat split; reflexivity.
+Qed.
